@@ -1,5 +1,5 @@
 (* C13 — Parsing partitions the docstring: each line is text, source or want, once. *)
-From XD Require Import Model.Base Model.Parser Spec.Partition Proofs.ParserProofs Proofs.ChunkProofs.
+From XD Require Import Model.Base Model.Parser Spec.Partition Spec.Labels Proofs.ParserProofs Proofs.ChunkProofs Proofs.LabelProofs.
 
 (* the labeller emits exactly one labelled line per docstring line, in order, each
    identical to the input line up to the display prefix inserted by the triple-quote
@@ -101,3 +101,29 @@ Theorem C13_hypotheses_satisfiable :
     Consecutive 7 [p1; p2] 9.
 Proof. exact (conj demo_oracle_in_range demo_chunk_two_parts). Qed.
 Print Assumptions C13_hypotheses_satisfiable.
+
+(* the second sentence of the property, for well-formed docstrings (Spec/Labels.v): a docstring assembled from
+   blocks -- prose; examples whose lines share one indentation, made of statements (a '>>> ' line plus the '... ' /
+   '>>> ' lines the tokenizer oracle needs to see the statement complete) followed by non-blank want lines; prose
+   after an example starting with a blank line; an example directly behind source lines having their indentation --
+   is labelled exactly as intended: prose is text, statement lines are source (continuation lines from the first
+   '...' line on), the lines that follow are the want.  The excluded layouts are the known findings F8a/F8b. *)
+Theorem C13_labels_as_intended : forall bal bs s,
+  splitlines s = concat (map block_lines bs) -> Chain bal TEXT O bs ->
+  label_lines bal s = Ok (intended bs).
+Proof. exact labels_as_intended. Qed.
+Print Assumptions C13_labels_as_intended.
+
+(* from any state of the labeller a chain of blocks may follow *)
+Theorem C13_labels_as_intended_from : forall bal bs prev pind, Chain bal prev pind bs ->
+  label_go bal (concat (map block_lines bs)) (mkL prev pind None) = Ok (intended bs).
+Proof. exact labels_as_intended_from. Qed.
+Print Assumptions C13_labels_as_intended_from.
+
+(* non-vacuity: prose, an example with a two-line statement, a one-line statement and a want, prose again, under an
+   oracle that calls a statement complete when its brackets are closed *)
+Theorem C13_labels_example :
+  map fst (intended demo_blocks) = [TEXT; TEXT; DSRC; DCNT; DSRC; WANT; TEXT; TEXT] /\
+  label_go demo_bal (concat (map block_lines demo_blocks)) (mkL TEXT O None) = Ok (intended demo_blocks).
+Proof. exact demo_labels. Qed.
+Print Assumptions C13_labels_example.
